@@ -1,10 +1,10 @@
 SPECIFICATION GSpec
 CONSTANTS
   MaxTri = 5
-  MaxVerts = 7
-  StructSizes <- SizesMore
+  MaxVerts = 6
+  StructSizes <- SizesSmall
   UseRing = TRUE
-  Elevations <- ElevMore
+  Elevations <- ElevMid
   SetMaxTri = 2
   NamesB = {"a", "b"}
   MaxDepth = 100
